@@ -15,7 +15,7 @@ from ..provider.loc_stack_filtering import LocStack
 from ..provider.located_request import LocatedRequestDelegatingProvider, LocatedRequestT, for_predicate
 from ..provider.location import GenericParamLoc, TypeHintLoc
 from ..special_cases_optimization import as_is_stub
-from ..type_tools import BaseNormType, NormTypeAlias, is_new_type, is_subclass_soft, strip_tags
+from ..type_tools import BaseNormType, NormTypeAlias, is_new_type, is_subclass_soft, is_typed_dict_class, strip_tags
 from ..type_tools.basic_utils import eval_forward_ref, get_forward_ref_namespace
 from ..type_tools.implicit_params import fill_implicit_params
 from ..utils import MappingHashWrapper
@@ -550,7 +550,7 @@ class UnionProvider(LoaderProvider, DumperProvider):
         # `Annotated[Decimal, ...]` is dumped by class of wrapped type
         origins = [strip_tags(case).origin for case in norm.args]
         dumper_type_dispatcher = ClassDispatcher(
-            {type(None) if origin is None else origin: dumper for origin, dumper in zip(origins, dumpers)},
+            {self._get_runtime_class(origin): dumper for origin, dumper in zip(origins, dumpers)},
         )
 
         literal_dumper = self._get_dumper_for_literal(norm, dumpers, dumper_type_dispatcher)
@@ -559,6 +559,13 @@ class UnionProvider(LoaderProvider, DumperProvider):
             return literal_dumper
 
         return self._produce_dumper(dumper_type_dispatcher)
+
+    def _get_runtime_class(self, origin) -> type:
+        if origin is None:
+            return type(None)
+        if is_typed_dict_class(origin):
+            return dict  # an instance of TypedDict is a plain dict
+        return origin
 
     def _produce_dumper(self, dumper_type_dispatcher: ClassDispatcher[Any, Dumper]) -> Dumper:
         def union_dumper(data):
